@@ -102,7 +102,7 @@ func init() {
 		ID:        "C01",
 		Technique: "static analysis: path enumeration over canonicalised accessor functions with boolean implication of the bounds/arity facts (truth table); type-token coherence of typed get/set arms",
 		Explain: "Decides the rejection clause and the wiring of coordinate addressing: (S1) every non-error iteration path of Ltoi's coordinate loop has established coord >= 0 and coord < size, and the scalar branch accepts only 0; (S2) in At/SetAt/MaskAt/SetMaskAt every path to Get/Set/mask[...] has passed the arity check and the error check of the offset computation and uses exactly that offset, at() is Ltoi over the tensor's own Shape() and Strides(), maskAt() is at(); (K3/K1arms) the typed Get/Set/Memset arms of array and storage.Header use only accessors and assertions of their own label type and agree with their sibling arms; (S8) stride-routine selection by data order. " +
-			"Not decided: that CalcStrides* compute the right products and that Ltoi's sum is the rank in data order (value arithmetic); behaviour of the column-major converting constructor. Round 7: (EP) every refusal a function constructs itself precedes any effect on the receiver/parameters, deferred closures included. Round 11: (O13) no MakeAP call stores the live shape/strides slice of the receiver's or a parameter's own pattern; (T13) the general branch of AP.T permutes by the requested axes on every path.",
+			"Not decided: that CalcStrides* compute the right products and that Ltoi's sum is the rank in data order (value arithmetic); behaviour of the column-major converting constructor. Round 7: (EP) every refusal a function constructs itself precedes any effect on the receiver/parameters, deferred closures included. Round 11: (O13) no MakeAP call stores the live shape/strides slice of the receiver's or a parameter's own pattern; (T13) the general branch of AP.T permutes by the requested axes on every path. Round 13: (T8) every copying transpose kernel walks in the tensor's data order; (S7) Reshape refuses every non-contiguous tensor.",
 		Run: func(rc *rules.RC) {
 			rules.T8(rc)
 			rules.S7(rc)
@@ -133,7 +133,7 @@ func init() {
 		ID:        "C02",
 		Technique: "static analysis: path enumeration with boolean implication over the slice validators and the contiguity marker; term extraction and sibling comparison of the two slice-length calculators; structural co-slicing rule; guard census",
 		Explain: "Decides: (S3) CheckSlice accepts only when start <= end, start >= 0, not(step == 0 and end-start > 1), start < size, and SliceDetails validates every non-nil slice, clamps end and expands nil to (0,size,1); (S4) AP.S and Shape.S refuse more slices than axes and take (start,end,step) of every axis from SliceDetails; (S5) the length term under step > 0 is ceil((end-start)/step) with no extra condition, identical in both calculators; (S9) Slice/SliceInto take window and access pattern from one AP.S call, slice data and mask with the same window, record the parent and copy dtype/engine/flag. " +
-			"(S12) the sliced access pattern is marked NonContiguous at least when a non-outermost axis of a non-vector is sliced or a step > 1 is taken, with the outermost axis chosen by data order (names bound structurally). Not decided: offset (ndStart/ndEnd) arithmetic, stride scaling, which dimensions are dropped. Round 7: (L0) the layout predicates every view-aware guard relies on equal their table definitions (flow-sensitive extraction, measurement comparisons as free variables); (S9) a view handed in for reuse keeps neither a pending lazy transpose nor a mask. Round 11: (T15) SafeT/T install the pattern AP.T returned, order flag included; (NC) the NonContiguous mark is never cleared on gaplessness alone; (L0) IsVectorLike decided also when written over single stride elements; (O13).",
+			"(S12) the sliced access pattern is marked NonContiguous at least when a non-outermost axis of a non-vector is sliced or a step > 1 is taken, with the outermost axis chosen by data order (names bound structurally). Not decided: offset (ndStart/ndEnd) arithmetic, stride scaling, which dimensions are dropped. Round 7: (L0) the layout predicates every view-aware guard relies on equal their table definitions (flow-sensitive extraction, measurement comparisons as free variables); (S9) a view handed in for reuse keeps neither a pending lazy transpose nor a mask. Round 11: (T15) SafeT/T install the pattern AP.T returned, order flag included; (NC) the NonContiguous mark is never cleared on gaplessness alone; (L0) IsVectorLike decided also when written over single stride elements; (O13). Round 13: (S22) Ltoi adds coordinate times the stride of its own axis; (WP) tensor.Narrow and the Narrow method are the same code.",
 		Run: func(rc *rules.RC) {
 			rules.S22(rc)
 			rules.WP(rc)
@@ -161,7 +161,7 @@ func init() {
 		ID:        "C13",
 		Technique: "static analysis: term extraction and sibling comparison of shape calculators; path enumeration with boolean implication over the reshape gate, the contiguity marker and the repeat destination check; lock typestate of access patterns over canonical paths; unique-owner analysis over SSA",
 		Explain: "Decides: (S5) the shape-only slice calculator and the access-pattern slice calculator compute the same length term, which is ceil((end-start)/step); (S4) both validate through SliceDetails and refuse too many slices; (S7) every path of Reshape that reaches reshape() has established equal total size, is not a non-contiguous view and has materialised a pending lazy transpose, and reshape() only sets the shape and checks sanity; (O8) for the metadata-invariant clause: no two tensors own the same shape/strides slices (an alias lets one tensor's reshape or recycling zero the other's shape); (S12) AP.S marks sliced views NonContiguous (the flag Reshape's refusal keys on); (S14) every call of the lock-respecting AP.SetShape happens on a pattern unlocked on every path (otherwise the shape is silently not installed and size != product of shape); (L1) RepeatReuse accepts a destination only when its shape is the computed result shape. " +
-			"Not decided: that shape and strides address distinct in-bounds positions (a runtime invariant over values), that reshape preserves the flat sequence, repeat/concat calculators' arithmetic. Round 7: (DC) Repeat has no shortcut result beside its worker; (S21) the concat calculator's axis bounds are two-sided; (T14) composition order; (EP) refusals precede effects (Reshape, Transpose). Round 11: (NC) mark-clearing rule; (RS) raw-reshape typestate.",
+			"Not decided: that shape and strides address distinct in-bounds positions (a runtime invariant over values), that reshape preserves the flat sequence, repeat/concat calculators' arithmetic. Round 7: (DC) Repeat has no shortcut result beside its worker; (S21) the concat calculator's axis bounds are two-sided; (T14) composition order; (EP) refusals precede effects (Reshape, Transpose). Round 11: (NC) mark-clearing rule; (RS) raw-reshape typestate. Round 13: (UP); (SW) Slice and SliceInto cut the same window.",
 		Run: func(rc *rules.RC) {
 			rules.UP(rc)
 			rules.SW(rc)
@@ -197,7 +197,7 @@ func init() {
 		ID:        "C03",
 		Technique: "static analysis: SSA field-event typestate of the lazy-transpose triple, unique-owner analysis of access patterns, sibling comparison of per-width and per-build transpose kernels and of the two transposed-index computations, path rules on Transpose/UT",
 		Explain: "Decides: (T1) whoever gives an object a saved access pattern (old) also gives it transposeWith and AP; (T2) old and transposeWith are cleared together; (T4) Transpose recomputes the default strides of the current shape by data order and installs them after the move and discards the thunk, UT restores exactly the saved AP, calcStrides selects the routine by order; (T6) Dense.transposeIndex (in-place build) and TransposeIndex accumulate the same sum oldCoord[pattern[k]]*newStrides[k]; (K1w) the 1/2/4/8-byte transpose kernels are one algorithm, in both builds; (O8) SafeT/T(api)/Transpose(api)/Clone hand the copy its own access patterns (no alias of the source's shape/strides, so undoing or materialising one tensor cannot wipe the other); (B1) both transpose builds declare the same functions; (SV) no access pattern computed before a materialising Transpose()/UT()/Reshape is installed or used after it; (T7) the inverse shortcut of Dense.T decides on the permutations, not on shapes; (L1) the shortcut is taken only for a true vector or a recognised inverse; (WC) the pre-transpose accessors are read only by transposition itself and the BLAS gateways. " +
-			"Not decided: that the permutation arithmetic (UnsafePermute, cycle following, iterator order) is the right permutation; the composition law. Round 7: (T14) the saved permutation is the outer one wherever it is composed with another index vector; (T9) every successful return of the engine's Transpose has gone through the width dispatcher; (EP) refusals precede effects. Round 11: (T15) the transposed pattern is installed unchanged; (RS) the raw reshape is used only where no lazy transposition can be pending.",
+			"Not decided: that the permutation arithmetic (UnsafePermute, cycle following, iterator order) is the right permutation; the composition law. Round 7: (T14) the saved permutation is the outer one wherever it is composed with another index vector; (T9) every successful return of the engine's Transpose has gone through the width dispatcher; (EP) refusals precede effects. Round 11: (T15) the transposed pattern is installed unchanged; (RS) the raw reshape is used only where no lazy transposition can be pending. Round 13: (UP) UnsafePermute exchanges elements by its pattern on every path.",
 		Quick: []string{"default", "inplacetranspose"},
 		Run: func(rc *rules.RC) {
 			rules.UP(rc)
@@ -229,7 +229,7 @@ func init() {
 		ID:        "C05",
 		Technique: "static analysis: consistency rules over the iterator family on canonical forms - mask polarity, valid/invalid duality, path-exhaustive reset completeness against the steppers' mod-set, vector-axis addressing, digest dependence of the stride key, mirror comparison of the two odometers",
 		Explain: "Decides consistency of the iterator family, not its arithmetic: (I1) NextValidity reports !mask[i], NextValid stops on unmasked and NextInvalid on masked elements, in FlatMaskedIterator and MultIterator; (I2) NextValid and NextInvalid of one type are identical up to exactly that polarity; (I3) every path through FlatIterator.Reset rewrites every field the stepping functions mutate (done, nextIndex, track); (I4) the vector fast path addresses track/shape/strides through veclikeDim, which is the first axis of length != 1, and no vector arm uses a literal axis; (I5) the multi-iterator's stride-block key is the digest of all stride elements; (I6) colMajorNDNext is ndNext with loop direction and done-axis reversed. " +
-			"Not decided - and this is the core of the property: that the odometer yields offsets in row-major coordinate order, the skip counts, coordinate tracking values. Round 7: (I11) every loop over the multi-iterator's blocks that steps/rewinds them treats all blocks on every iteration; (L0) AP.IsVectorLike - which selects the unit-step fast path - is 'vector-like shape and all strides one'. Round 11: (I15) every path that moves on from the last axis of an odometer walk has set done; (I14) every path that writes the direction flag rewinds; (I16) the direction setters of all iterator types write their own flag and rewind their own state.",
+			"Not decided - and this is the core of the property: that the odometer yields offsets in row-major coordinate order, the skip counts, coordinate tracking values. Round 7: (I11) every loop over the multi-iterator's blocks that steps/rewinds them treats all blocks on every iteration; (L0) AP.IsVectorLike - which selects the unit-step fast path - is 'vector-like shape and all strides one'. Round 11: (I15) every path that moves on from the last axis of an odometer walk has set done; (I14) every path that writes the direction flag rewinds; (I16) the direction setters of all iterator types write their own flag and rewind their own state. Round 13: (T7) the inverse shortcut of Dense.T composes the saved and the requested permutation; (IM) a masked tensor always gets a masked iterator.",
 		Run: func(rc *rules.RC) {
 			rules.IM(rc)
 			rules.T7(rc)
@@ -257,7 +257,7 @@ func init() {
 		ID:        "C08",
 		Technique: "static analysis: canonical-form comparison of reduction kernels against an anchor table and sibling specialisations; type-token coherence of reduction dispatchers and method tables; ownership analysis of the operand and the axis list; layout-guard rules on the reduction entry points",
 		Explain: "Decides: (K9) Sum/Prod/Argmax/Argmin(/Masked)/SliceMin/SliceMax/Reduce kernels equal the anchor table (accumulate with + from zero, * from one; update on strict comparison so the first index of the extreme wins; masked variants skip masked elements); (K1) all type specialisations of every reduction kernel incl. the axis-specialised reducers agree; (K3/K1arms) every arm of the reduction dispatchers and of the SumMethods/MinMethods/MaxMethods/Monotonic* tables uses its own label type and returns its own operation's triple; (O3) the caller's axis list is not mutated; (O8) the operand's access pattern is never aliased into a scratch AP that is recycled (operand unchanged); (L) layout rules of C16/C04 on the reduction entry points (see those properties). " +
-			"Not decided: the split/size/stride arithmetic of the first/last/default reducers and the axis renumbering loop. Round 7: (PI) the wrappers hand the caller's axis and operands to the engine unassigned; (K12) no typed dispatcher returns successfully in front of its type switch; (MZ) Materialize builds a row-major copy, which the raw reducers rely on; (L0) the predicates the reducers materialise on.",
+			"Not decided: the split/size/stride arithmetic of the first/last/default reducers and the axis renumbering loop. Round 7: (PI) the wrappers hand the caller's axis and operands to the engine unassigned; (K12) no typed dispatcher returns successfully in front of its type switch; (MZ) Materialize builds a row-major copy, which the raw reducers rely on; (L0) the predicates the reducers materialise on. Round 13: (LC) raw whole-buffer copies on the materialise path are census sites.",
 		Run: func(rc *rules.RC) {
 			rules.LC(rc, 18)
 			rules.DA(rc, 50)
@@ -290,7 +290,7 @@ func init() {
 		ID:        "C15",
 		Technique: "static analysis: mask-predicate table conformance of every typed arm, arm uniformity and type coherence, iterator mask polarity/duality, co-slicing of the mask, offset identity of mask access, sibling-pair duality of the mask inspections, guard goals on whole-mask folds",
 		Explain: "Decides: (K8) in every typed arm of Masked{Equal,NotEqual,Greater,GreaterEqual,Less,LessEqual,Inside,Outside} the soft branch stores mask[i] = P(a) and the hard branch mask[i] = mask[i] || P(a) with P from the predicate table; (K1arms/K3) the arms agree and use their own label type; (I1,I2) masked iteration treats a set bit as invalid, in NextValidity/NextValid/NextInvalid of both masked iterator types; (S9) Slice/SliceInto slice the mask with the data window; (S2) MaskAt/SetMaskAt address the mask at the same offset as the data element (maskAt is at); (T-mask) both transpose builds move the mask before the data; (SP) FlatMasked*/FlatNotMasked* and doMaskAll/doMaskAny are mirror images up to polarity; (L1) the whole-mask folds of MaskedAll/Any/Count run only when the mask covers exactly the tensor's elements; (E1) Filled/FilledInplace and the mask helpers never work on a result under its own err != nil. " +
-			"Not decided: counts, run/edge finders, fill values, that valid positions get the unmasked value of elementwise operations. Round 7: (O6) a recycled tensor header carries neither mask nor mask policy into its next life. Round 11: (MI) the edge and run finders answer through an iterator on every path; (MM) makeMask only where no mask exists; (TMask) the string transpose kernel moves the mask too.",
+			"Not decided: counts, run/edge finders, fill values, that valid positions get the unmasked value of elementwise operations. Round 7: (O6) a recycled tensor header carries neither mask nor mask policy into its next life. Round 11: (MI) the edge and run finders answer through an iterator on every path; (MM) makeMask only where no mask exists; (TMask) the string transpose kernel moves the mask too. Round 13: (IM) IteratorFromDense returns the plain iterator only for a tensor found unmasked.",
 		Quick: []string{"default", "inplacetranspose"},
 		Run: func(rc *rules.RC) {
 			rules.IM(rc)
@@ -318,7 +318,7 @@ func init() {
 		ID:        "C04",
 		Technique: "static analysis: layout-guard goals on every whole-tensor writer/copy decided by path enumeration and boolean implication; truth-table check of the layout predicates; SSA storage-provenance and unique-owner analysis of the copying constructors; abstract interpretation of the in-place (unsafe) mode cases",
 		Explain: "Decides: (L0) RequiresIterator/IsMaterializable/IsView are the boolean functions every guard relies on; (L1) every path to a raw whole-buffer access in Memset, Zero, Copy, Materialize, ToMat64 has established that the tensor is not a view / does not require an iterator (iterator-driven variants are used otherwise); (M2/M3) in-place arithmetic through a view runs the iterator kernel paired with the view's own iterator, never a raw kernel on the iterator path; (V1) Clone, Materialize, SafeT allocate the result's storage, copy elements with a copy primitive and share no array/Header/Raw/mask with the source; (O8) and no access-pattern slices either; (S9) Slice/SliceInto build the view over the parent's window. " +
-			"Not decided: that the iterator writes land on the right elements (C05's arithmetic); native-slice conversions' element order. Round 7: (EP) refusals precede effects; IsMaterializable includes tensors that own their memory but have gaps (finding 78). Round 11: (AD) no decision on buffer start addresses in iterator-driven copies; (O13) built patterns own their slices; (NC); (MM) a view's mask is never cut to the view's element count.",
+			"Not decided: that the iterator writes land on the right elements (C05's arithmetic); native-slice conversions' element order. Round 7: (EP) refusals precede effects; IsMaterializable includes tensors that own their memory but have gaps (finding 78). Round 11: (AD) no decision on buffer start addresses in iterator-driven copies; (O13) built patterns own their slices; (NC); (MM) a view's mask is never cut to the view's element count. Round 13: (SA) no self-append is taken for a copy; (SW) Slice and SliceInto cut the same window.",
 		Run: func(rc *rules.RC) {
 			rules.SA(rc)
 			rules.SW(rc)
@@ -358,7 +358,7 @@ func init() {
 		ID:        "C09",
 		Technique: "static analysis: BLAS argument conformance by per-path term propagation against a reference table derived from the row-major BLAS convention; BLAS-gateway goals (every trans flag / leading dimension derives from a test of that operand's own state on every path) by path enumeration and implication; arm uniformity and precision-letter coherence of the typed BLAS arms; ownership analysis of scratch slices and recycled tensors",
 		Explain: "Decides: (LB) on every path to a BLAS call in MatMul/MatVecMul/Outer the lazy-transpose state and data order of each operand were branched on (a flag taken from the wrong operand, or a merged test, is reported); (L1) whether the operands' need for an iterator was consulted at all (it is not: known finding 15); (K1arms/K3) the float32/float64/complex64/complex128 arms call the same routine with the same argument pattern and the right precision letter; (O3/O7/O8) axes arguments are not mutated, only function-local tensors are recycled (handleIncr guard), scratch access patterns are not aliases of an operand's. " +
-			"(LD) on every feasible path of MatVecMul, MatMul, Outer and Inner each argument of the gemv/gemm/ger/dot call - transposition flags, dimensions, leading dimensions, buffers, operand order - is the one the operand's data order, lazy-transpose state and logical shape require under the row-major BLAS convention (term propagation along the path against a derived reference; 41 layout cases); (P2) the gateways and their callers do not write their operands (Dot and Outer do: known findings 13, 14). Not decided: the routines themselves (trusted by name), the reshape/permutation arithmetic of TensorMul/Contract, Dot's dispatch table beyond delegation, rounding. Round 7: (K1w/T8/T9) the copying transpose kernels the general contraction relies on; (PI) parameter integrity of the wrappers; L1 goals on the float engines' Inner (finding 79). Round 11: (LP) the destination handed to the engine's MatVecMul/MatMul/Outer was normalised by handleReuse or created by the method.",
+			"(LD) on every feasible path of MatVecMul, MatMul, Outer and Inner each argument of the gemv/gemm/ger/dot call - transposition flags, dimensions, leading dimensions, buffers, operand order - is the one the operand's data order, lazy-transpose state and logical shape require under the row-major BLAS convention (term propagation along the path against a derived reference; 41 layout cases); (P2) the gateways and their callers do not write their operands (Dot and Outer do: known findings 13, 14). Not decided: the routines themselves (trusted by name), the reshape/permutation arithmetic of TensorMul/Contract, Dot's dispatch table beyond delegation, rounding. Round 7: (K1w/T8/T9) the copying transpose kernels the general contraction relies on; (PI) parameter integrity of the wrappers; L1 goals on the float engines' Inner (finding 79). Round 11: (LP) the destination handed to the engine's MatVecMul/MatMul/Outer was normalised by handleReuse or created by the method. Round 13: (LN) no conjugating BLAS routine in any arm; (S9) a reused view header forgets its pending transposition.",
 		Run: func(rc *rules.RC) {
 			rules.S9(rc)
 			rules.LN(rc)
@@ -397,7 +397,7 @@ func init() {
 		ID:        "C10",
 		Technique: "static analysis: layout-accumulator implication check, layout-guard goals on the block-copy paths, width-family uniformity of the view-stack kernels, loop-cursor discipline, ownership of the repeats/axes arguments",
 		Explain: "Decides: (LA) the flag that selects StackDense's raw block-copy path is true only if no operand requires an iterator (initial value and every loop path, by implication); (L1) the block-copy calls are guarded by it, and whether denseRepeat consults the operand's layout (it does not: known finding 32); (K1w) doViewStack1/2/4/8 are one algorithm; (E2) in every loop of the stacking/repetition code a cursor advanced at the end of the body is advanced on every continue path; (O2/O3) repeats and shapes passed by the caller are neither kept nor modified; (L1) Hstack stacks along axis 0 only for rank-1 receivers and RepeatReuse accepts a destination only of the computed shape; (LC/LF) a new raw block copy or flat element loop must be layout-guarded; (P2) concat/stack/repeat do not write their operands (denseConcat does: known finding 16). " +
-			"Not decided: block-copy offsets/strides of denseRepeat and denseSimpleStack, the slice-and-assign placement of denseConcat, data-order agreement of stacked operands (finding 19). Round 7: (DC) every successful return of Repeat/RepeatReuse/Concat has gone through denseRepeat/denseConcat; (MZ) Materialize yields row-major storage; (S21) Shape.Concat accepts only 0 <= axis < rank. Round 11: the memcpy path of copyDenseIter (through which Concat assigns) requires equal data order.",
+			"Not decided: block-copy offsets/strides of denseRepeat and denseSimpleStack, the slice-and-assign placement of denseConcat, data-order agreement of stacked operands (finding 19). Round 7: (DC) every successful return of Repeat/RepeatReuse/Concat has gone through denseRepeat/denseConcat; (MZ) Materialize yields row-major storage; (S21) Shape.Concat accepts only 0 <= axis < rank. Round 11: the memcpy path of copyDenseIter (through which Concat assigns) requires equal data order. Round 13: (VH) Vstack/Hstack concatenate along their literal axes; (DC) Dense.Repeat always goes through the engine.",
 		Run: func(rc *rules.RC) {
 			rules.VH(rc)
 			rules.SK(rc)
@@ -439,7 +439,7 @@ func init() {
 		ID:        "C14",
 		Technique: "static analysis: static evaluation of the .npy dtype tables (writer o reader = id), wire-sequence agreement of the gob encoder/decoder, layout-guard goals on the writers, type-token coherence of the typed reader arms, flat-traversal census, access-pattern lock typestate, operand mod-summaries over SSA",
 		Explain: "Decides: (F1) for every dtype the .npy writer accepts, the reader maps its descriptor back to the same dtype (both tables and the reader's special cases evaluated statically for the int size of the configuration); (F2) GobEncode puts exactly the tensor's own Shape(), Strides(), order, triangle, mask, Data() on the wire and GobDecode reads the same sequence and installs every value; (F5) the rank-1 .npy header form is used only for rank-1 tensors; (L1/L4) whether WriteNpy, GobEncode and ToMat64 consult the layout before emitting raw storage (they do not: known findings 18, 28); (K3/K1arms) the typed arms of the readers (convFromStrs, ReadNpy) use their own label type and bit size; (LF) every counting loop that emits elements by flat index is a reviewed site or is guarded by the layout predicate and consults the data order (a new flat fast path in a writer is reported); (S14) the readers install the decoded shape through an unlocked access pattern on every path (decoding into a tensor already in use must not silently keep the old shape); (P2) the writers do not modify the tensor. " +
-			"Not decided: value-level round trip (number formatting/parsing, header padding arithmetic, CSV record assembly), protobuf/flatbuffers field mapping. Round 7: (S9/L0) the view marker and the predicates on which the encoders decide to write by logical content. Round 11: (F7) every npy header WriteNpy's formats produce for ranks 0-4 is matched by ReadNpy's three patterns with the expected captures (constants evaluated by the analyser); (F8) pb/fb encoder and decoder name the element type with the same Dtype method; (F9) all five decoders clear the receiver's saved pattern and axes, and every data-order case assigns the order.",
+			"Not decided: value-level round trip (number formatting/parsing, header padding arithmetic, CSV record assembly), protobuf/flatbuffers field mapping. Round 7: (S9/L0) the view marker and the predicates on which the encoders decide to write by logical content. Round 11: (F7) every npy header WriteNpy's formats produce for ranks 0-4 is matched by ReadNpy's three patterns with the expected captures (constants evaluated by the analyser); (F8) pb/fb encoder and decoder name the element type with the same Dtype method; (F9) all five decoders clear the receiver's saved pattern and axes, and every data-order case assigns the order. Round 13: (F10) AP.Init installs the decoded strides as given; (F11) addMask installs its argument on every path.",
 		Run: func(rc *rules.RC) {
 			rules.F10(rc)
 			rules.F11(rc)
@@ -560,7 +560,7 @@ func init() {
 		ID:        "C19",
 		Technique: "static analysis: interprocedural ownership analysis over go/ssa (origin tracing with fixpoint summaries returns-param / retains / writes / recycles), mod-set of the recycle function, unique-owner rule for pool-managed access patterns",
 		Explain: "A history-quantified property becomes per-site ownership invariants decided over every function: (O1,O2,O3) no exported function recycles, retains or mutates a caller's []int/Shape/[]Slice/[]bool argument, directly or through any chain of callees (summaries by fixpoint; documented sharing is a named exception table); (O6) ReturnTensor stores a zero value into every leaf field of Dense before pooling it; (O7) ReturnTensor inside the library receives only tensors created in that function, or a parameter under the not-the-reuse-tensor guard; (O8) an access pattern (whose shape/strides slices AP.zero and SetShape return to the ints pool) read out of one object is stored elsewhere only as a move or after Clone, no exported function returns such an alias, no local alias is zeroed into the pool; (T2) the lazy-transpose triple is cleared together; (O10) every freeScalar call lies under the newAlloc flag of scalarToHeader/prepDataVS/prepDataSV, so a scalar operand that is a tensor (aliased, not copied) is never zeroed and pooled. If no live object can reach a slice in the free list and no caller slice is kept, written or recycled, no operation history can corrupt through that channel. " +
-			"Not decided: corruption through backing arrays the API documents as shared; use-after-return inside one function (O9) beyond the rules above. Round 7: (PO) publish-last in the pool return functions; (EP) a refused call leaves its receiver and arguments unchanged. Round 11: (P2) no exported read-only operation writes an operand, through any chain of callees; (O13); (AD).",
+			"Not decided: corruption through backing arrays the API documents as shared; use-after-return inside one function (O9) beyond the rules above. Round 7: (PO) publish-last in the pool return functions; (EP) a refused call leaves its receiver and arguments unchanged. Round 11: (P2) no exported read-only operation writes an operand, through any chain of callees; (O13); (AD). Round 13: (SR) no operation returns a second header of an operand as its result; (SA).",
 		Assume: []string{"interface calls resolve to the module's implementing types (CHA restricted to the module)", "flow-insensitive origin tracing through locals and captured variables (over-approximates aliases)"},
 		Run: func(rc *rules.RC) {
 			rules.SA(rc)
@@ -694,7 +694,7 @@ func init() {
 		ID:        "C17",
 		Technique: "static analysis: type-erased canonical forms of all generated specialisations compared within each family (sibling agreement), and type-token coherence of every arm of every type switch, over the type-checked AST",
 		Explain: "Decides, for every generated per-type function of the module (kernels, typed accessors, native converters) and every arm of every switch over element types: (K1) all specialisations of one template that belong to one type class have the same canonical form after erasing their own element type; (K1arms) the same for the arms of one switch; (K3) every typed accessor, specialised kernel, Dtype/reflect token, BLAS precision letter and type assertion in an arm denotes the arm's label type; (K2) the canonical form of each arithmetic/comparison/unary/min-max kernel equals the operator table's definition for its operation, variant and type class. " +
-			"Not decided: behaviour of the Go operators themselves, accuracy of math routines, and agreement of results after conversion between types (a runtime relation). Round 7: (K4) the arm for type T of one operation's dispatcher equals the arm for T of its sibling operations; (K12) dispatchers do not return successfully in front of the switch; (K3) arms serving several types use no construct specific to one of them. Round 11: (CVI) an IsInf(x, s) branch yields the infinity of sign s.",
+			"Not decided: behaviour of the Go operators themselves, accuracy of math routines, and agreement of results after conversion between types (a runtime relation). Round 7: (K4) the arm for type T of one operation's dispatcher equals the arm for T of its sibling operations; (K12) dispatchers do not return successfully in front of the switch; (K3) arms serving several types use no construct specific to one of them. Round 11: (CVI) an IsInf(x, s) branch yields the infinity of sign s. Round 13: (T8) over every transpose kernel including the byte-copying one.",
 		Assume: []string{"sibling specialisations are meant to be instances of one template (the genlib2 design)", "a template-wide change that K2's operator table does not cover is not detected by sibling comparison"},
 		Run: func(rc *rules.RC) {
 			rules.T8(rc)
